@@ -70,6 +70,14 @@ class Interp(object):
         self.functions_seen = set()
         self.max_states = 0
         self.tracked = ()       # terms whose domain is part of state identity
+        self.recursive_fns = set()
+        for ix in prog.index.values():
+            for name, fn in ix.functions.items():
+                for n in facts.walk(fn):
+                    if n.get('kind') == 'DeclRefExpr' and n.get('referencedDecl', {}).get('kind') == 'FunctionDecl' \
+                            and n['referencedDecl'].get('name') == name:
+                        self.recursive_fns.add(name)
+                        break
         self.uninit_reads = 0
 
     # ------------------------------------------------------------------ obligations
@@ -105,7 +113,17 @@ class Interp(object):
             return outs
         groups = {}
         order = []
-        for st, ctl in outs:
+        # cheap pre-grouping: full signatures are only computed where a merge is possible
+        pre = {}
+        for i, (st, ctl) in enumerate(outs):
+            pre.setdefault((st.pre_sig(), ctl[0] if ctl is not None else None), []).append(i)
+        lone = set(v[0] for v in pre.values() if len(v) == 1)
+        for i, (st, ctl) in enumerate(outs):
+            if i in lone:
+                sig = ('lone', i)
+                groups[sig] = [st, ctl]
+                order.append(sig)
+                continue
             csig = None
             if ctl is not None:
                 if ctl[0] == 'return':
@@ -141,6 +159,7 @@ class Interp(object):
             for x in pt[2]:
                 s2 = st.fork()
                 s2.eq[pt] = x
+                s2.touch()
                 out.extend(self.targets(s2, x))
             return out
         return [(st, '?', ZERO)]
@@ -269,7 +288,7 @@ class Interp(object):
         ix, d = self.find_global_def(decl)
         ty = ix.parse_type(d['type']['qualType'])
         const = 'const' in d['type']['qualType'].split('*')[-1] or d['type']['qualType'].startswith('const ')
-        o = st.new_obj(oid, 'global', ix.sizeof(ty), default='zero', ro=const)
+        o = st.new_obj(oid, 'global', ix.sizeof(ty), default='zero', ro=False)
         o.zeroed_n = o.size
         init = [c for c in d.get('inner', []) if c.get('kind', '').endswith(('Expr', 'Literal', 'Operator'))]
         if init:
@@ -281,6 +300,7 @@ class Interp(object):
                 self.ix = save
             if len(outs) != 1:
                 raise Unsupported('forking global initialiser ' + name)
+        o.ro = const
         if not const and oid not in st.tags.get('known_globals', ()):
             # mutable global: contents at function entry are arbitrary
             o.cells.clear()
@@ -611,12 +631,14 @@ class Interp(object):
                     for x in ps[2]:
                         if self.cmp_ptr(st, 'eq', x, o) != ZERO:
                             st.eq[ps] = x if x[0] != 'pset' else o
+                            st.touch()
                             return True
                     return False
                 rest = tuple(x for x in ps[2] if self.cmp_ptr(st, 'eq', x, o) != ONE)
                 if not rest:
                     return False
                 st.eq[ps] = rest[0] if len(rest) == 1 else ('pset', ps[1], rest)
+                st.touch()
                 return True
             if a[0] in ('ptr', 'fn') or b[0] in ('ptr', 'fn'):
                 r = self.cmp_ptr(st, 'eq', a, b)
@@ -643,9 +665,23 @@ class Interp(object):
             l.k += s
             if l.is_const():
                 return l.k <= 0
-            if not (is_const(a) or is_const(b)):
-                st.add_fact(l)
-            elif len(l.co) > 1 or any(x[0] not in ('in', 'sym') for x in l.co):
+            if len(l.co) == 1:
+                (atom, c), = l.co.items()
+                # c*atom + k <= 0
+                if c > 0:
+                    bound = (-l.k) // c
+                    if not st.refine(atom, Dom(-INF, bound)):
+                        return False
+                else:
+                    bound = -((-l.k) // (-c)) if (-l.k) % (-c) == 0 else -((-l.k) // (-c))
+                    # atom >= ceil(k / -c)
+                    import math
+                    bound = -((-l.k) // (-c)) if False else math.ceil(l.k / (-c)) if abs(l.k) < (1 << 52) else (l.k + (-c) - 1) // (-c)
+                    if not st.refine(atom, Dom(bound, INF)):
+                        return False
+                if atom[0] not in ('in', 'sym'):
+                    st.add_fact(l)
+            else:
                 st.add_fact(l)
             return True
         # arbitrary integer term: truth means != 0
